@@ -611,6 +611,20 @@ fn orbit_key(s: &PSysState, n: usize) -> String {
 }
 
 fn part_d_actors(a: &Args, shared: &SharedReport, th: bool) {
+    actors_under_symmetry(a, shared, th, 0, "c10");
+}
+
+/// Peer systems with a crash budget, with and without `.symmetry()`: every symmetry class of crashed
+/// configurations that the plain search reaches must be evaluated by the reduced one (C09: each combination of
+/// crashed actors is a distinct state that the checker explores - also when states are identified up to symmetry).
+pub fn crashes_under_symmetry(a: &Args, shared: &SharedReport, th: bool) {
+    actors_under_symmetry(a, shared, th, 1, "e3:c09-sym");
+    if th {
+        actors_under_symmetry(a, shared, th, 2, "e3:c09-sym");
+    }
+}
+
+fn actors_under_symmetry(a: &Args, shared: &SharedReport, th: bool, crashes: usize, prefix: &str) {
     let mut idx = 0u64;
     for n in if th { vec![2usize, 3] } else { vec![2usize, 3] } {
         for kind in 0..3 {
@@ -620,6 +634,9 @@ fn part_d_actors(a: &Args, shared: &SharedReport, th: bool) {
                     continue;
                 }
                 if n == 3 && (lossy || (kind == 0 && !th)) {
+                    continue;
+                }
+                if crashes > 0 && n == 3 && (kind != 1 || !th) {
                     continue;
                 }
                 let build = || {
@@ -632,12 +649,13 @@ fn part_d_actors(a: &Args, shared: &SharedReport, th: bool) {
                         .actors((0..n).map(|_| Peer { n }))
                         .init_network(net)
                         .lossy_network(if lossy { LossyNetwork::Yes } else { LossyNetwork::No })
+                        .max_crashes(crashes)
                         .property(Expectation::Always, "count bounded", |_, s| s.actor_states.iter().all(|x| x.0 <= 2))
                         .property(Expectation::Sometimes, "someone fully acked", |m, s| s.actor_states.iter().any(|x| x.1.len() == m.actors.len() - 1))
                         .property(Expectation::Always, "nobody counts 2", |_, s| s.actor_states.iter().all(|x| x.0 < 2))
                         .property(Expectation::Sometimes, "never", |_, _| false)
                 };
-                let rv = json!({"engine": "c10actors", "n": n, "kind": kind, "lossy": lossy});
+                let rv = json!({"engine": "c10actors", "n": n, "kind": kind, "lossy": lossy, "max_crashes": crashes});
                 begin_case(shared, "c10 actors", rv.clone(), "machinery:hang-long");
                 let run = |sym: bool| {
                     let vis: Arc<Mutex<BTreeSet<String>>> = Arc::new(Mutex::new(BTreeSet::new()));
@@ -662,18 +680,22 @@ fn part_d_actors(a: &Args, shared: &SharedReport, th: bool) {
                 r.nontrivial += 2;
                 r.states += u_plain as u64;
                 r.transitions += (u_plain + u_sym) as u64;
-                r.outcome(format!("actors:{n}:{kind}:{lossy}:{u_plain}:{u_sym}"));
+                r.outcome(format!("actors:{n}:{kind}:{lossy}:{crashes}:{u_plain}:{u_sym}"));
+                if crashes > 0 {
+                    let crashed_classes = orbits_plain.iter().filter(|k| k.contains("true")).count();
+                    r.count("symmetry_classes_with_a_crashed_actor", crashed_classes as u64);
+                }
                 if d_plain != d_sym {
-                    r.violation("c10:actor-symmetry-changes-verdicts", format!("n={n} kind={kind} lossy={lossy}: discoveries without symmetry {:?}, with {:?}", d_plain, d_sym), rv.clone());
+                    r.violation(&format!("{prefix}:actor-symmetry-changes-verdicts"), format!("max_crashes={crashes} n={n} kind={kind} lossy={lossy}: discoveries without symmetry {:?}, with {:?}", d_plain, d_sym), rv.clone());
                 }
                 if u_sym > u_plain {
-                    r.violation("c10:actor-symmetry-more-states", format!("n={n} kind={kind}: unique with symmetry {u_sym} > without {u_plain}"), rv.clone());
+                    r.violation(&format!("{prefix}:actor-symmetry-more-states"), format!("max_crashes={crashes} n={n} kind={kind}: unique with symmetry {u_sym} > without {u_plain}"), rv.clone());
                 }
                 if u_sym < orbits_plain.len() {
-                    r.violation("c10:actor-symmetry-skips-an-orbit", format!("n={n} kind={kind}: unique with symmetry {u_sym} < symmetry classes {}", orbits_plain.len()), rv.clone());
+                    r.violation(&format!("{prefix}:actor-symmetry-skips-an-orbit"), format!("max_crashes={crashes} n={n} kind={kind}: unique with symmetry {u_sym} < symmetry classes {}", orbits_plain.len()), rv.clone());
                 }
                 if orbits_sym != orbits_plain {
-                    r.violation("c10:actor-symmetry-orbit-not-evaluated", format!("n={n} kind={kind}: classes evaluated with symmetry {} vs {} reachable", orbits_sym.len(), orbits_plain.len()), rv.clone());
+                    r.violation(&format!("{prefix}:actor-symmetry-orbit-not-evaluated"), format!("max_crashes={crashes} n={n} kind={kind}: classes evaluated with symmetry {} vs {} reachable", orbits_sym.len(), orbits_plain.len()), rv.clone());
                 }
                 r.sample(1, || json!({"actors": n, "network_kind": kind, "lossy": lossy, "unique_plain": u_plain, "unique_sym": u_sym, "symmetry_classes": orbits_plain.len()}));
             }
